@@ -140,6 +140,7 @@ var VerdictDefects = map[string]func(*model.Defects){
 	"anyof-merged":                   func(d *model.Defects) { d.AnyOfMerged = true },
 	"null-object-zero":               func(d *model.Defects) { d.NullObjZero = true },
 	"addprop-container-lax":          func(d *model.Defects) { d.AddPropObjLax = true },
+	"allof-same-keyword-first-wins":  func(d *model.Defects) { d.AllOfFirstWins = true },
 	"untyped-composition-definition": func(d *model.Defects) { d.UntypedCompDef = true },
 	"minsized-uint8-array-is-bytes":  func(d *model.Defects) { d.Uint8ArrayBase64 = true },
 	"named-format-type":              func(d *model.Defects) { d.NamedFormat = true },
